@@ -20,9 +20,12 @@ import (
 
 func verifStubAddDate(t time.Time, years, months, days int) time.Time {
 	verifAssume(years == 0 && months == 0)
-	return time.Unix(t.Unix()+int64(days)*86400, 0).UTC()
+	return time.Unix(t.Unix()+int64(days)*86400, 0).In(t.Location())
 }
-func verifStubYear(t time.Time) int         { return int(t.Unix() / 86400) }
+func verifStubYear(t time.Time) int {
+	_, off := t.Zone() // the calendar day is the day in the timestamp's own Location
+	return int((t.Unix() + int64(off)) / 86400)
+}
 func verifStubMonth(t time.Time) time.Month { return 1 }
 func verifStubDay(t time.Time) int          { return 1 }
 func verifStubDate(year int, month time.Month, day, hour, min, sec, nsec int, loc *time.Location) time.Time {
@@ -300,4 +303,71 @@ func VerifC25Noncurrent() {
 		}
 		verifCover("noncurrent-expired")
 	}
+}
+
+// VerifC25TwoTransitionRules: two enabled rules with their own prefix filters
+// and transitions to different classes; a transition to a class may only
+// happen under the rule that names it, when that rule selects the object and
+// its transition is due.
+func VerifC25TwoTransitionRules() {
+	key := verifC25Key("key", 2)
+	created := verifMathInt64("created")
+	now := verifMathInt64("now")
+	verifAssume(created >= 0 && created <= 1<<33 && now >= 0 && now <= 1<<34)
+	etag := "etag-listed"
+	obj := storage.Object{Key: storage.MustNewObjectKey(key), Size: 5, LastModified: verifC25At(created), ETag: etag}
+	st := &verifC25Store{objects: []storage.Object{obj}, tags: map[string]string{}}
+	targets := []string{"STANDARD_IA", "GLACIER"}
+	var rules []storage.LifecycleRule
+	var match, due [2]bool
+	for i := 0; i < 2; i++ {
+		tag := []string{"r1", "r2"}[i]
+		prefix := verifC25Key(tag+"-prefix", 1)
+		days := verifInt32(tag + "-days")
+		verifAssume(days >= 0 && days <= 36500)
+		rule := storage.LifecycleRule{Status: storage.LifecycleRuleStatusEnabled, Filter: &storage.LifecycleFilter{Prefix: &prefix},
+			Transitions: []storage.LifecycleTransition{{Days: &days, StorageClass: targets[i]}}}
+		rules = append(rules, rule)
+		match[i] = key[0] == prefix[0]
+		due[i] = now >= verifC25Due(created, days)
+	}
+	m := verifC25Middleware(st, now)
+	m.reconcileBucket(context.Background(), storage.MustNewBucketName("bucket"), &storage.BucketLifecycleConfiguration{Rules: rules}, nil)
+	for _, c := range st.calls {
+		verifAssert(c.kind == "transition" && c.key == key, "C25: unexpected action")
+		verifCover("two-rules-transition")
+		ok := false
+		for i := 0; i < 2; i++ {
+			if c.target == targets[i] {
+				ok = verifAnd(match[i], due[i])
+			}
+		}
+		verifAssert(ok, "C25: transition to a class whose rule does not select the object or is not due")
+	}
+}
+
+// VerifC25DueInstantIgnoresLocation: the five day-based due times are a function
+// of the instant alone: a timestamp carried in any fixed-offset Location (as a
+// database driver may return it) gets the due time of the same instant in UTC,
+// i.e. the first midnight UTC after created + days, never an earlier one.
+func VerifC25DueInstantIgnoresLocation() {
+	sec := verifInt64("created")
+	verifAssume(sec >= 0 && sec <= 1<<33)
+	days := int32(verifPick("days", 1, 3))
+	offH := verifPick("zone-offset-hours", -12, 14)
+	local := time.Unix(sec, 0).In(time.FixedZone("z", offH*3600))
+	want := verifC25Due(sec, days)
+	rule := &storage.LifecycleRule{Status: storage.LifecycleRuleStatusEnabled,
+		Expiration:                     &storage.LifecycleExpiration{Days: &days},
+		AbortIncompleteMultipartUpload: &storage.LifecycleAbortIncompleteMultipartUpload{DaysAfterInitiation: &days},
+		NoncurrentVersionExpiration:    &storage.LifecycleNoncurrentVersionExpiration{NoncurrentDays: &days}}
+	check := func(due *time.Time) {
+		verifAssert(due != nil && due.Unix() == want, "C25: a day-based due time depends on the timestamp's Location (it can fall before created + days)")
+	}
+	check(storage.LifecycleExpirationDueTime(rule, local))
+	check(storage.LifecycleTransitionDueTime(&storage.LifecycleTransition{Days: &days, StorageClass: "GLACIER"}, local))
+	check(storage.LifecycleAbortDueTime(rule, local))
+	check(storage.LifecycleNoncurrentExpirationDueTime(rule, local))
+	check(storage.LifecycleNoncurrentTransitionDueTime(&storage.LifecycleNoncurrentVersionTransition{NoncurrentDays: &days, StorageClass: "GLACIER"}, local))
+	verifCover("zoned")
 }
